@@ -64,12 +64,26 @@ fn odd_shapes(o: &mut Out, r: &mut Rng) {
         let mut t = gen::tx_of(r, &gen::Shape { vary_rings: true, ..shape_of(1, nin, 0, nout, RctType::Null, 0) }); if let Some(TxIn::ToKey { key_offsets, .. }) = t.prefix.inputs.first_mut() { key_offsets.clear(); } if let Some(s) = t.signatures.first_mut() { s.clear(); } check(o, r, &t, "tx", "empty-ring");
         let t = gen::tx_of(r, &shape_of(2, nin, 0, nout, RctType::Null, 0)); check(o, r, &t, "tx", "empty-ring");
     } }
-    // ... and NOT for the other types: the encoder writes it, the decoder refuses ("no ring members") — not a round-trip value
+    // ... and NOT for the other types: the encoder writes it, the decoder refuses ("no ring members") — not a round-trip value.
+    // The refusal must be THAT one (not, say, a truncation caused by a malformed body from the generator): the error text is compared, and
+    // the same value with one ring member in the first input (the generator sizes the MLSAG / CLSAG rows for mixin 0 when the ring is
+    // empty, so pushing one offset is the only difference) must round-trip through all oracles of `check`.
+    // (the twin takes its offset and its suffix from a copy of the generator state: the stream of the families below is unchanged)
     for rct in &gen::RCT_TYPES[1..] {
         let t = gen::tx_of(r, &shape_of(2, 1, 0, if matches!(rct, RctType::Full | RctType::Simple) { 0 } else { 1 }, *rct, 0)); let w = serialize(&t);
         let id = format!("c01_dec tx {}", hex(&w));
-        o.direct(deserialize::<Transaction>(&w).is_err(), "C02: a RingCT transaction whose first input has an empty ring is refused", id.clone(), "Ok".into(), "Err".into());
+        let res = deserialize::<Transaction>(&w);
+        o.direct(res.is_err(), "C02: a RingCT transaction whose first input has an empty ring is refused", id.clone(), "Ok".into(), "Err".into());
+        let msg = match &res { Ok(_) => "Ok".to_string(), Err(e) => format!("{} / {:?}", e, e) };
+        o.direct(msg.contains(EMPTY_RING_MSG), "C02: the refusal of an empty first ring is the empty-ring error (not another parse failure)", id.clone(), msg, format!("an error saying {:?}", EMPTY_RING_MSG));
         o.op(id, true); o.stat("tx.empty-ring-refused");
+        let mut rc = Rng(r.0);
+        let mut t1 = t.clone(); let mut pushed = false;
+        if let Some(TxIn::ToKey { key_offsets, .. }) = t1.prefix.inputs.first_mut() { pushed = key_offsets.is_empty(); key_offsets.push(gen::vi(&mut rc)); }
+        o.direct(pushed, "harness: the empty-ring value has a key input with an empty ring in front", format!("{:?}", rct), "other".into(), "ToKey with no offsets".into());
+        let w1 = serialize(&t1);
+        o.direct(w1.len() > w.len() && deserialize::<Transaction>(&w1).ok().as_ref() == Some(&t1), "C02: the refused empty-ring value with ONE ring member in its first input parses back (the refusal is about the ring)", format!("c01_dec tx {}", hex(&w1)), "Err or different".into(), "Ok, same value".into());
+        check(o, &mut rc, &t1, "tx", "empty-ring-twin");
     }
     // a coinbase input between two key inputs (v1: no signature row for it; RingCT: counted as an input)
     for rct in gen::RCT_TYPES { for version in [1u64, 2] {
@@ -77,7 +91,10 @@ fn odd_shapes(o: &mut Out, r: &mut Rng) {
         let mut t = gen::tx_of(r, &gen::Shape { vary_rings: true, ..shape_of(version, 3, 2, if matches!(rct, RctType::Full | RctType::Simple) { 0 } else { 2 }, rct, 1) });
         t.prefix.inputs[1] = TxIn::Gen { height: gen::vi(r) }; if version == 1 { t.signatures.remove(1); }
         check(o, r, &t, "tx", "mixed-inputs");
-        let mut t2 = t.clone(); t2.prefix.inputs.swap(0, 1);   // coinbase first: mixin 0 for the RingCT part
+        // the same with the coinbase input FIRST: only where nothing depends on the mixin (version 1, type Null) — `t`'s MLSAG / CLSAG rows
+        // are sized for mixin 1, and the decoder takes mixin 0 when the first input is `Gen`, so for the other types this is not a
+        // round-trip value; the coinbase-first values of every RingCT type (rows sized for mixin 0) are built in `coinbase_first_rct`
+        let mut t2 = t.clone(); t2.prefix.inputs.swap(0, 1);
         if version == 1 || rct == RctType::Null { check(o, r, &t2, "tx", "mixed-inputs"); }
     } }
     // version numbers other than 1 and 2 in front of RingCT data (everything but 1 takes the RingCT path), multi-byte versions
@@ -104,6 +121,28 @@ fn odd_shapes(o: &mut Out, r: &mut Rng) {
     for v in [0u64, 127, 128, u64::MAX] { let h = BlockHeader { major_version: VarInt(v), minor_version: VarInt(v), timestamp: VarInt(v), prev_id: Hash([0xff; 32]), nonce: v as u32 }; check(o, r, &h, "header", "nonce"); }
     // blocks whose miner transaction is of every RingCT type / version 1 (the generator's are Null-type 3 times out of 4)
     for s in gen::sweep_shapes().iter().filter(|s| s.nin == 1 && s.nout == 1 && s.ring == 1 && !s.coinbase_first) { let mut b = gen::block(r, 2); b.miner_tx = gen::tx_of(r, s); check(o, r, &b, "block", "miner-kinds"); }
+}
+
+/// what the library says when the first input of a RingCT transaction (type != Null) has no ring member (transaction.rs, `Transaction::consensus_decode`)
+const EMPTY_RING_MSG: &str = "Input has no ring members";
+
+/// Family "coinbase first + RingCT": a `Gen` input in front of key inputs under version 2 with EVERY RingCT type. The decoder takes
+/// mixin 0 when the first input is `Gen` (transaction.rs: `_ => 0`), whatever the rings of the inputs behind it; `gen::tx_of`
+/// computes the mixin from `inputs[0]` in the same way, so the MLSAGs / CLSAGs have one row. All oracles of `check` + model comparison.
+fn coinbase_first_rct(o: &mut Out, r: &mut Rng) {
+    for rct in gen::RCT_TYPES { for (nin, ring, vary) in [(3usize, 2usize, true), (2, 3, false), (1, 1, false), (3, 1, false)] {
+        let nout = if matches!(rct, RctType::Full | RctType::Simple) { if nin == 2 { 1 } else { 0 } } else { 2 };
+        let t = gen::tx_of(r, &gen::Shape { vary_rings: vary, coinbase_first: true, ..shape_of(2, nin, ring, nout, rct, 1) });
+        // the value is what the comment says: Gen first, key inputs (with rings of `ring` or more / varying members) behind, the type asked for, one-row signatures
+        let gen_first = matches!(t.prefix.inputs.first(), Some(TxIn::Gen { .. })) && t.prefix.inputs.iter().skip(1).all(|i| matches!(i, TxIn::ToKey { key_offsets, .. } if !key_offsets.is_empty()));
+        let ty_ok = t.rct_signatures.sig.as_ref().map(|s| s.rct_type) == Some(rct);
+        let rows_ok = match &t.rct_signatures.p { None => rct == RctType::Null, Some(p) => p.MGs.iter().all(|m| m.ss.len() == 1) && p.Clsags.iter().all(|c| c.s.len() == 1) && (p.MGs.len() + p.Clsags.len() >= 1) };
+        o.direct(gen_first && ty_ok && rows_ok, "harness: the coinbase-first RingCT value has a Gen input in front, the RingCT type asked for and one-row ring signatures", format!("{:?} nin={} ring={}", rct, nin, ring), format!("gen_first={} type={} rows={}", gen_first, ty_ok, rows_ok), "all true".into());
+        o.stat(&format!("tx.coinbase-first.rct{}.ring{}", gen::rct_num(rct), if nin == 1 { 0 } else { ring }));
+        check(o, r, &t, "tx", "coinbase-first-rct");
+        // with a coinbase input BETWEEN the key inputs as well (Gen, ToKey, Gen)
+        if nin == 3 && vary { let mut t3 = t.clone(); t3.prefix.inputs[2] = TxIn::Gen { height: gen::vi(r) }; check(o, r, &t3, "tx", "coinbase-first-rct"); }
+    } }
 }
 
 /// Family "primitives": fixed-width integers (unsigned and signed), bool, RctType, fixed records and boxed slices as values
@@ -199,7 +238,11 @@ pub fn run(o: &mut Out, tier: &str, seed: u64) {
     odd_shapes(o, &mut r2);
     primitives(o, &mut r2);
     cap_boundary(o);
+    // --- family added after the review (own generator state) ---
+    let mut r3 = Rng::new(seed ^ 0x0c02_b0d2);
+    coinbase_first_rct(o, &mut r3);
     o.notes.push("added families: empty rings, coinbase between key inputs, versions 0/3/multi-byte with RingCT data, 127..129 inputs, L/R of 127..129 keys, 255..257 Bulletproofs, boundary nonces, every miner-tx kind in blocks; fixed-width signed/unsigned integers, bool, RctType, fixed records, boxed slices; vectors of exactly cap/size (accepted) and cap/size+1 (refused) real elements".into());
+    o.notes.push("after the review: coinbase input FIRST in front of key inputs under version 2 with every one of the seven RingCT types (family `coinbase-first-rct`: rings of 1..5 members behind the Gen input, one-row MLSAG/CLSAG = mixin 0, 28 + 7 values through all oracles and the model); the empty-ring refusal is now the specific one (error text \"Input has no ring members\") and each refused value with one offset pushed into its first ring round-trips (`tx.empty-ring-twin`), so the refusal cannot be a generator artefact".into());
     o.notes.push("values from the type-directed generator (both versions, all 7 RingCT types, rings up to 40 / big, long vectors); non-trivial = every generated value (each is checked for round trip, length, strictness)".into());
 }
 fn bucket(n: usize) -> &'static str { match n { 0 => "0", 1 => "1", 2..=4 => "2-4", 5..=16 => "5-16", 17..=127 => "17-127", _ => "128+" } }
